@@ -265,3 +265,65 @@ func VerifC07LateAck() {
 	}
 	vCover("c07-lateack-end")
 }
+
+// VerifC07LateAckAfterLoss: the backend's acknowledgement arrives after the publisher's
+// connection was lost; the publisher resumes and retransmits PUBREL. The message was accepted
+// once and must not be handed on again; the retransmitted PUBREL is answered by PUBCOMP.
+func VerifC07LateAckAfterLoss() {
+	be := newVBackend(2) // ack now / later
+	be.resumed = true
+	acceptedN := 0
+	be.onAccept = func(msg *packet.Message) {
+		acceptedN++
+		if acceptedN > 1 {
+			if be.reforwarded(msg) {
+				vKnownFinding("C07-late-ack-reforward")
+				acceptedN = 1
+			} else {
+				vAssert(false, "A4: a QoS 2 message is handed on for delivery at most once per handshake")
+			}
+		}
+	}
+	conn := newVConn(false)
+	cl := NewClient(be, conn)
+	conn.in <- mkConnect("pub", false, nil)
+	vQuiesce()
+	p := packet.NewPublish()
+	p.ID = 3
+	p.Message = packet.Message{Topic: "t", Payload: []byte{3}, QOS: 2}
+	conn.in <- p
+	vQuiesce()
+	conn.in <- &packet.Pubrel{ID: 3}
+	vQuiesce()
+	// the connection is lost; a stashed acknowledgement arrives before or after the resume
+	conn.Close()
+	close(conn.in)
+	vQuiesce()
+	vAssert(chanClosed(cl.Closed()), "old client terminated")
+	early := vBool("ack-before-resume")
+	if early {
+		be.release()
+		vQuiesce()
+	}
+	conn2 := newVConn(false)
+	conn2.onSend = func(pkt packet.Generic) {
+		if _, ok := pkt.(*packet.Pubcomp); ok {
+			vAssert(acceptedN == 1, "A1: PUBCOMP only after the backend has accepted responsibility for the message")
+		}
+	}
+	NewClient(be, conn2)
+	conn2.in <- mkConnect("pub", false, nil)
+	vQuiesce()
+	if !early {
+		be.release()
+		vQuiesce()
+	}
+	conn2.in <- &packet.Pubrel{ID: 3} // retransmission after the resume
+	vQuiesce()
+	for be.release() {
+		vQuiesce()
+	}
+	vAssert(acceptedN == 1, "the message is handed on exactly once across the connection loss")
+	vAssert(countType(conn2, packet.PUBCOMP) >= 1, "the retransmitted PUBREL is answered, the handshake terminates")
+	vCover("c07-lateack-loss-end")
+}
